@@ -117,6 +117,8 @@ impl Module {
         section: wasmparser::ElementSectionReader,
         ids: &mut IndicesToIds,
     ) -> Result<()> {
+        #[cfg(walrus_verif)]
+        crate::verif::emit("interpret", "element", -1, -1);
         log::debug!("parse element section");
         for (i, segment) in section.into_iter().enumerate() {
             let element = segment?;
